@@ -108,14 +108,15 @@ def _check_query(cx: Cx, fn, manhattan: bool):
             continue
         if is_int and val is not None:
             key = 'id-form'
-            if key not in reported:
-                reported.add(key)
+            if 'id-form-bad' not in reported:
                 # the helper that computes the id is a nested function; name the construct after it
                 construct = fn.qualname
                 for e in p.events:
                     if e.kind == 'call' and e.data.get('expr') is not None and any('if_int' in t.qualname for t in e.data.get('targets', [])):
                         construct = [t.qualname for t in e.data['targets'] if 'if_int' in t.qualname][0]
-                check_id_poly(cx, fn, val, self_s, vx, vy, vz, cx.where(fn, apps[0].line), construct, f"{fn.name} (id form)")
+                okid = check_id_poly(cx, fn, val, self_s, vx, vy, vz, cx.where(fn, apps[0].line), construct, f"{fn.name} (id form)",
+                                     cond=p.cond, quiet=key in reported)
+                reported.add(key if okid else 'id-form-bad')
         # bounds per axis
         for (ax, ext, i) in AXES:
             v, info = by_axis[ax]
@@ -150,7 +151,7 @@ def _check_query(cx: Cx, fn, manhattan: bool):
                      f"positive before looping over {ax}", cx.where(fn, iters[0].line))
                 continue
             n_bounds += 1
-            if (lo, hi) != (wlo, whi):
+            if (lo, hi) != (wlo, whi) and (lo, hi) != (_under(wlo, p.cond, dom), _under(whi, p.cond, dom)):
                 viol('R-GUARD', f"{ax}-bounds-clip-the-ball-to-the-grid",
                      f"{fn.name}: with {ext} {'positive' if pos else 'zero'} the {ax} loop runs over range({lo!r}, {hi!r}); the "
                      f"ball [c-r, c+r] clipped to the grid is range({wlo!r}, {whi!r})", cx.where(fn, iters[0].line),
@@ -217,6 +218,27 @@ def _check_query(cx: Cx, fn, manhattan: bool):
         apps = [e for e in p.events if e.kind == 'store' and e.data.get('store') == 'append']
         if not (isinstance(v, Fresh) and apps and strip_versions(apps[0].data.get('target')) == v):
             viol('R-FRESH', 'returns-the-collected-list', f"{fn.name} returns {v!r}, not the list it collected", cx.where(fn))
+
+
+def _under(t, F, dom):
+    """max(a, b) / min(a, b) on a path whose condition already orders a and b is the selected operand (a clamp written as
+    statements - `lo = c - r; if not lo > 0: lo = 0` - yields one operand per path)."""
+    from .geom import expand_minmax
+    mm = expand_minmax(t)
+    if mm is None:
+        return t
+    fn_, args = mm
+    if len(args) != 2:
+        return t
+    a, b = args
+    try:
+        if implies(F, mk_cmp(a, '>=', b), assume=dom, domain='int') is None:
+            return a if fn_ == 'max' else b
+        if implies(F, mk_cmp(b, '>=', a), assume=dom, domain='int') is None:
+            return b if fn_ == 'max' else a
+    except Exception:
+        pass
+    return t
 
 
 def _resolve_ift(t, assumption, dom):
